@@ -80,7 +80,8 @@ CHECKS = {
         technique="bounded-exhaustive input enumeration over small byte alphabets plus parametric boundary families, differential against a reference zero-code model",
         text="All strings over {00,01,FF} up to length 12 (quick 10) through compress->expand, every zero-run length 0..1100 in 9 left/right contexts incl. "
              "wrap-form tokens, all decoder inputs over {00,01,02,FF} up to length 8 (quick 7), every reference length around the 0x3000 cap with 13 tail-token "
-             "shapes, and adversarial expansion families with allocation tracing, each checked against an independent plain-Python statement of the format "
+             "shapes, adversarial expansion families with allocation tracing, and every ordered pair of strings up to length 4 (thorough 5) with the first "
+             "call's un-copied result held across the second call and fed back in, each checked against an independent plain-Python statement of the format "
              "(round trip, canonical output, decoder == reference, cap refusal, bounded allocation).",
         note="hmc.refwire zero-code reference trusted (self-checked against six format vectors); between cap and cap+512 the decoder may refuse or return the exact "
              "expansion (it checks per input byte); 'without bound' = tracemalloc peak below 8*cap; header peek covered in C01/C02; no sampled general strings."),
